@@ -179,10 +179,10 @@ def run_property(prop, tier='quick', seed=0, only=None, jobs=None, verbose=True)
             print('  HARNESS-ERROR %s: %s' % (e['id'], (e.get('error') or '')[:1500]))
     for l in out_lines:
         print(l)
-    if errors:
-        return 3
     if violations:
         return 1
+    if errors:
+        return 3
     return 0
 
 
